@@ -21,7 +21,7 @@ ANCHORS = ["State.__eq__", "Lanelet.__eq__", "Obstacle.__eq__", "Obstacle.__hash
            "TrafficSign.__eq__", "Intersection.__eq__"]
 REQUIRED = ["law.reflexive", "law.deepcopy", "law.symmetric", "law.twin", "law.perturbation", "law.hash-total",
             "law.hash-consistent", "defaults-instance", "law.kwargs-order", "law.cross-class-state", "law.optional-subsets", "law.derived-attribute-twin",
-            "coordinates-of-different-magnitude", "law.after-update_initial_state", "law.assembly-twin", "law.moved-after-compared", "law.other-representation", "law.other-representation.array-dtype", "law.inspected-twin", "perturbation.emptied-collection",
+            "coordinates-of-different-magnitude", "law.after-update_initial_state", "law.assembly-twin", "law.moved-after-compared", "law.other-representation", "law.other-representation.array-dtype", "law.inspected-twin", "perturbation.emptied-collection", "law.none-vs-empty-twin",
             "class.Polygon.large", "class.Lanelet.large"]
 ASSUMPTIONS = ["perturbations are clearly different valid values (never a duplicate; a reordering only for the member lists of shape groups and light cycles, whose order carries meaning)",
                "real perturbations are >= 1e-6, i.e. far above the documented 1e-10 resolution"]
@@ -841,6 +841,33 @@ def run(ctx):
             if isinstance(v_, (list, set, dict)) and len(v_) > 0:
                 perts_all.setdefault(p_, []).append(lambda g, v, _t=type(v_): _t())
                 ctx.feature("perturbation.emptied-collection")
+        # ... and the two ways of saying "nothing": the parameter left at None and the parameter given as an empty
+        # collection. Whether the two count as different is the class's business; if they compare equal they hash alike
+        for p_, v_ in sorted(kw.items()):
+            if not (isinstance(v_, (list, set, dict)) and len(v_) > 0):
+                continue
+            try:
+                import inspect
+                if inspect.signature(type(x).__init__).parameters[p_].default is not None:
+                    continue  # None is not what the constructor documents for "not given"
+            except (KeyError, ValueError, TypeError):
+                continue
+            ye = safe(lambda: build(pert=(p_, lambda g, v, _t=type(v_): _t()), defaults=use_defaults)[0])
+            yn = safe(lambda: build(pert=(p_, lambda g, v: None), defaults=use_defaults)[0])
+            if ye[0] != "ok" or yn[0] != "ok":
+                continue
+            ctx.evaluation()
+            ctx.feature("law.none-vs-empty-twin")
+            r = eq_ops(yn[1], ye[1])
+            if r[0] == "exc":
+                V("eq-raises-%s" % type(r[1]).__name__, "parameter %s: None vs empty" % p_, p_)
+            elif r[1][0] != r[1][1]:
+                V("not-symmetric", "parameter %s None vs empty: x==y %s, y==x %s" % (p_, r[1][0], r[1][1]), p_)
+            elif r[1][0]:
+                h1, h2 = safe(hash, yn[1]), safe(hash, ye[1])
+                if h1[0] == "ok" and h2[0] == "ok" and h1[1] != h2[1]:
+                    V("equal-but-hash-differs", "parameter %s: the object built with None equals the one built with an "
+                      "empty collection, their hashes differ" % p_, "none-vs-empty:" + p_)
         for p, fns in sorted(perts_all.items()):
             for j, fn in enumerate(fns):
                 y = safe(lambda: build(pert=(p, fn), defaults=use_defaults)[0])
